@@ -10,7 +10,9 @@ accepts an instrument as soon as ANY pipeline has an aggregate function for it. 
 concerns that reader only.
 
 The twin model `Sys` has the delta and the cumulative reader (both with the default selector).  `BSys` adds a third reader
-whose selector drops the instrument kinds in `drop` (a view-selected aggregation overrides the reader's choice,
+whose selector drops — or, after the F48 fix of /repo (9bc3ba8: the observable-instrument constructors join a pipeline's error
+and go on, as `resolver.Aggregators` does), REJECTS with an incompatible aggregation — the instrument kinds in `drop` (either
+way that pipeline gets no aggregate function; a view-selected aggregation overrides the reader's choice,
 `cachedAggregator`, pipeline.go:350-365) and which is collected in every cycle; its reports are discarded.
 -/
 import Otel.C08.Model
